@@ -110,41 +110,121 @@ def run_lines(binary, lines, timeout=600):
     return blocks
 
 
-def run_lines_isolated(binary, lines, timeout=20, chunk=200):
+def run_lines_isolated(binary, lines, timeout=20, chunk=200, max_bad=3):
     """Like run_lines, but survives aborts/hangs: on a chunk that crashes or times out, bisect
     down to single requests. Returns answer blocks; a request that kills or hangs the process
-    gets ['CRASH ...'] / ['HANG']."""
+    gets ['CRASH ...'] / ['HANG']. After `max_bad` such requests the remaining ones are not run
+    (['SKIPPED']): a check that has found its failing input must not spend its time budget on
+    waiting for more time-outs."""
     out = []
     i = 0
+    bad = 0
     while i < len(lines):
         part = lines[i:i + chunk]
-        out.extend(_run_chunk(binary, part, timeout))
+        if bad >= max_bad:
+            out.extend([["SKIPPED"]] * len(part))
+        else:
+            got = _run_chunk(binary, part, timeout)
+            bad += sum(1 for b in got if b and b[0].startswith(("HANG", "CRASH")))
+            out.extend(got)
         i += chunk
     return out
 
 
-def _run_chunk(binary, part, timeout):
+def _run_batch(binary, part, timeout):
+    """Whole chunk in one go (fast path). Returns blocks or None if the process hung/crashed."""
     data = "\n".join(part) + "\n"
     try:
-        p = subprocess.run([binary], input=data, stdout=subprocess.PIPE,
-                           stderr=subprocess.DEVNULL, text=True,
-                           timeout=timeout * (1 if len(part) == 1 else 3), env=ENV)
-        blocks, cur = [], []
-        for l in p.stdout.split("\n"):
-            if l == "END":
-                blocks.append(cur)
-                cur = []
-            elif l != "" or cur:
-                cur.append(l)
-        if len(blocks) == len(part):
-            return blocks
-        status = "CRASH rc=%d" % p.returncode
+        p = subprocess.run([binary], input=data.encode("utf-8", "surrogatepass"), stdout=subprocess.PIPE,
+                           stderr=subprocess.DEVNULL, timeout=timeout * (1 if len(part) == 1 else 3), env=ENV)
     except subprocess.TimeoutExpired:
-        status = "HANG"
+        return None, "HANG"
+    blocks, cur = [], []
+    for l in p.stdout.decode("utf-8", "replace").split("\n"):
+        if l == "END":
+            blocks.append(cur)
+            cur = []
+        elif l != "" or cur:
+            cur.append(l)
+    if len(blocks) == len(part):
+        return blocks, None
+    return None, "CRASH rc=%d" % p.returncode
+
+
+def _run_chunk(binary, part, timeout):
+    blocks, status = _run_batch(binary, part, timeout)
+    if blocks is not None:
+        return blocks
     if len(part) == 1:
         return [[status]]
+    if os.path.basename(binary) == "rvh":
+        return _run_stream(binary, part, timeout)      # rvh flushes after every answer
     mid = len(part) // 2
     return _run_chunk(binary, part[:mid], timeout) + _run_chunk(binary, part[mid:], timeout)
+
+
+def _run_stream(binary, part, timeout):
+    """Feed requests one at a time over a pipe; a request that exceeds `timeout` seconds is a
+    HANG (process killed, restarted for the rest), a dead process is a CRASH."""
+    import select
+    out = []
+    proc = None
+
+    def start():
+        return subprocess.Popen([binary], stdin=subprocess.PIPE, stdout=subprocess.PIPE,
+                                stderr=subprocess.DEVNULL, env=ENV, bufsize=0)
+    buf = b""
+    for req in part:
+        if proc is None or proc.poll() is not None:
+            proc = start()
+            buf = b""
+        try:
+            proc.stdin.write((req + "\n").encode("utf-8", "surrogatepass"))
+            proc.stdin.flush()
+        except (BrokenPipeError, OSError):
+            out.append(["CRASH rc=%s" % proc.poll()])
+            proc = None
+            continue
+        deadline = time.time() + timeout
+        block = None
+        while True:
+            k = buf.find(b"\nEND\n")
+            if buf.startswith(b"END\n"):
+                block, buf = [], buf[4:]
+                break
+            if k >= 0:
+                block = buf[:k].decode("utf-8", "replace").split("\n")
+                buf = buf[k + 5:]
+                break
+            left = deadline - time.time()
+            if left <= 0:
+                break
+            r, _, _ = select.select([proc.stdout], [], [], left)
+            if not r:
+                break
+            chunk = os.read(proc.stdout.fileno(), 1 << 20)
+            if not chunk:
+                block = "EOF"
+                break
+            buf += chunk
+        if block is None:
+            proc.kill()
+            proc.wait()
+            proc = None
+            out.append(["HANG"])
+        elif block == "EOF":
+            proc.wait()
+            out.append(["CRASH rc=%s" % proc.returncode])
+            proc = None
+        else:
+            out.append(block)
+    if proc is not None:
+        try:
+            proc.stdin.close()
+            proc.wait(timeout=5)
+        except Exception:  # noqa
+            proc.kill()
+    return out
 
 
 class Rng(random.Random):
